@@ -66,7 +66,11 @@ def run_proxy(c, P):
         _W.os.environ = {}
     prelude, ws_prev = _prelude(c, L, url, proxies) if P.get('prelude') and purl else (None, None)
     w = new_world()
-    status = [c.byte('s%d' % i) for i in range(3)] if P.get('sym_status', True) else list(b'200')
+    status = [c.byte('s%d' % i) for i in range(P.get('status_len', 3))] if P.get('sym_status', True) else list(b'200')
+    if P.get('status_len', 3) != 3 and c.concrete is None:
+        # an over-long status token without blanks: whatever its bytes (sign, leading zero, digit separator, non-ASCII digits), it is not "200"
+        for b in status:
+            c.assume(z3.UGE(b.e, 0x21))
     tails = P.get('tails', ['ok', 'ok-headers', 'unterminated-eof', 'empty', 'oversize', 'oversize-terminated', 'garbage'])
     tail = tails[c.choose(len(tails), 'tail')] if purl else 'ok'
     seps = None
